@@ -155,6 +155,20 @@ func runC15(c *Ctx) {
 					e, ok := v.(*ssa.Extract)
 					return ok && e.Tuple == dec.(ssa.Value) && e.Index == 0
 				}
+				// dst itself when it was made with exactly the decoded size of this source:
+				// make([]byte, hex.DecodedLen(len(src))) — a successful Decode fills all of it
+				if dst := PArgs(CallOf(dec))[0]; SameValue(v, dst) {
+					if mk, isMk := dst.(*ssa.MakeSlice); isMk {
+						if dl := CallResult(mk.Len, 0, "encoding/hex.DecodedLen"); dl != nil {
+							if ln, isC := PArgs(dl.Common())[0].(*ssa.Call); isC {
+								if b, isB := ln.Call.Value.(*ssa.Builtin); isB && b.Name() == "len" && SameValue(ln.Call.Args[0], PArgs(CallOf(dec))[1]) {
+									return true
+								}
+							}
+						}
+					}
+					return false
+				}
 				sl, ok := v.(*ssa.Slice)
 				if !ok || sl.Low != nil || sl.High == nil || !SameValue(sl.X, PArgs(CallOf(dec))[0]) {
 					return false
